@@ -236,8 +236,8 @@ func refBFS(c *explore.Ctx, pool *explore.Pool, prefix, depth int) (states, tran
 	exh = true
 	seen := map[uint64]bool{}
 	type node struct {
-		ev  []string
-		en  []string
+		ev []string
+		en []string
 	}
 	run := func(tasks []refTask) []refResult {
 		raw := make([][]byte, len(tasks))
